@@ -2,10 +2,12 @@
 # usage: run_seed.sh <seed dir name> <check id> [more ids]  : applies the seeded patch to /repo, runs the checks (quick), undoes it
 S=/verif/seeded/$1; shift
 git -C /repo status --short | grep -v '^??' && { echo "/repo not clean"; exit 2; }
+EV=$(mktemp -d /var/tmp/evsave.XXXX); cp -a /verif/evidence/. $EV/   # evidence written while a seed is applied is not kept
 git -C /repo apply --whitespace=nowarn $S/patch.diff || git -C /repo apply --3way $S/patch.diff || { echo "patch does not apply"; exit 2; }
 for c in "$@"; do
   (cd /verif && timeout 1800 python3-vt -m vt.check $c --tier ${TIER:-quick} 2>&1 | grep -E "VIOLATION|KNOWN|HARNESS|^\[C" | cut -c1-260)
   echo "exit($c)=${PIPESTATUS[0]}"
 done
 git -C /repo checkout -- . 
+cp -a $EV/. /verif/evidence/; rm -rf $EV
 git -C /repo status --short | grep -v '^??'
